@@ -98,6 +98,20 @@ func (w *world) ensure() {
 	}
 }
 
+// settle: what a session left behind on a plain (not published) fixture must not be counted against
+// the sessions after it: the stream is taken out of the registry and Ensure registers a fresh one.
+// (Published fixtures do the same in Ensure.)  Never needed on the unchanged tree.
+func (w *world) settle() {
+	for _, f := range w.fixtures {
+		if !f.Pushed && f.Stream != nil && f.Held() > 0 {
+			st := f.Stream
+			sl.Guard(sl.Watchdog, func() { media.Unregist(st) })
+			f.Stream = nil
+		}
+	}
+	w.ensure()
+}
+
 func (w *world) consumers() int {
 	n := 0
 	for _, f := range w.fixtures {
@@ -1103,6 +1117,58 @@ func (g *gen) generate() []script {
 		}
 	}
 	c.Note(fmt.Sprintf("%d release scripts: every transport class of a player (tcp, udp, multicast; published and plain sources; one and two tracks) and a recorder, leaving by TEARDOWN, hang-up or drop", nrel))
+	// "a method that is not legal in the current state is refused with 455 and changes nothing" / the
+	// playing state is the same state whatever transport class carried the session there: after a
+	// successful PLAY on EVERY transport class the state-dependent requests — a second PLAY (keep-alive:
+	// 200, nothing changes), a SETUP (455, nothing changes), PAUSE, all of them — and then TEARDOWN /
+	// hang-up / drop, which must release everything.  Judged by the reference automaton (order, 455)
+	// and its release clause; the consumer counts after every step are compared with the model's.
+	nst := 0
+	for _, flav := range []string{"tcp", "ws", "wsp"} {
+		for _, path := range []string{"/live/a", "/live/b"} {
+			for _, tr := range []string{"RTP/AVP/TCP;unicast;interleaved=%d-%d", "RTP/AVP;unicast;client_port=%d-%d", "RTP/AVP;multicast"} {
+				for _, follow := range []string{"PLAY", "SETUP", "PAUSE", "PLAY SETUP PAUSE PLAY"} {
+					for _, leave := range []string{"TEARDOWN", "H", ""} {
+						s := script{flav: flav, label: "playing-state"}
+						if flav != "tcp" {
+							s.wsPath = path
+						}
+						n := 1
+						add := func(st string) { s.steps = append(s.steps, st); n += 2 }
+						tp := func(k int) string {
+							if strings.Contains(tr, "client_port") {
+								return fmt.Sprintf(tr, 40000+2*k, 40001+2*k)
+							}
+							if strings.Contains(tr, "%d") {
+								return fmt.Sprintf(tr, 2*k, 2*k+1)
+							}
+							return tr
+						}
+						add(wire("DESCRIBE", base+path, n, "", "", ""))
+						add(wire("SETUP", g.controlURL(path, false), n, tp(0), "", ""))
+						add(wire("PLAY", base+path, n, "", "", ""))
+						for _, m := range strings.Fields(follow) {
+							switch m {
+							case "SETUP":
+								add(wire("SETUP", g.controlURL(path, path == "/live/a"), n, tp(1), "", ""))
+							default:
+								add(wire(m, base+path, n, "", "", ""))
+							}
+						}
+						switch leave {
+						case "TEARDOWN":
+							add(wire("TEARDOWN", base+path, n, "", "", ""))
+						case "H":
+							add("H")
+						}
+						out = append(out, s)
+						nst++
+					}
+				}
+			}
+		}
+	}
+	c.Note(fmt.Sprintf("%d playing-state scripts: after a successful PLAY on every transport class (tcp, udp, multicast) a second PLAY, a SETUP, PAUSE, and all of them, then TEARDOWN, hang-up or drop", nst))
 	// random structured scripts
 	n := c.Budget(2500, 40000)
 	paths := []string{"/live/a", "/live/a", "/live/b", "/live/abs", "/live/audio", "/live/badv", "/live/bada", "/live/empty", "/live/bad", "/live/none"}
@@ -1174,7 +1240,18 @@ func runScripts(c *Ctx, w *world, scripts []script) {
 	var lines []string
 	var pend []pending
 	reruns := 0
+	// confirmed: scripts whose wait expired again when they were run alone.  On the unchanged tree no wait
+	// ever expires, so none of what follows changes anything there.  On a wrong tree the first confirming
+	// re-run has the full watchdog; once a failure has been confirmed the later confirmations have short
+	// budgets, and after maxConfirmed confirmed scripts the rest of the GENERATED scripts is not run
+	// (counted as not-run): the report is there in minutes, not after the harness time-out.
+	confirmed := 0
+	const maxConfirmed = 6
 	for i, s := range ok1 {
+		if confirmed >= maxConfirmed && s.label != "corpus" {
+			c.Count("script-not-run")
+			continue
+		}
 		fin := map[string]string{}
 		if parts := strings.SplitN(mouts[i], " || ", 2); len(parts) == 2 {
 			fin = KV(parts[1])
@@ -1182,9 +1259,11 @@ func runScripts(c *Ctx, w *world, scripts []script) {
 		res := w.exec(s, fin)
 		if res.timedOut || res.err != "" {
 			// a watchdog expired (or the session could not be set up): a busy machine must not become a
-			// finding.  The script is run once more, alone; the first few times with the full budgets.
+			// finding.  The script is run once more, alone; with the full budgets until a failure has been
+			// confirmed that way (at most three times if the re-runs come out clean).
 			c.Count("script-rerun")
-			if reruns < 3 {
+			w.settle()
+			if reruns < 3 && confirmed == 0 {
 				sl.FullBudgets()
 				pulseBudget = sl.Watchdog
 			}
@@ -1192,7 +1271,11 @@ func runScripts(c *Ctx, w *world, scripts []script) {
 			res = w.exec(s, fin)
 			if !res.timedOut && res.err == "" {
 				c.Count("script-rerun-clean")
+			} else {
+				confirmed++
+				c.Count("script-rerun-confirmed")
 			}
+			w.settle()
 		}
 		if res.err != "" {
 			c.Find(Finding{Kind: "corr", Class: "harness-error", Case: s.caseLine(), Impl: res.err})
